@@ -341,9 +341,10 @@ func PathSens(q PSQuery) PSResult {
 		last := it.b.Instrs[len(it.b.Instrs)-1]
 		if iff, ok := last.(*ssa.If); ok {
 			val, known, key, neg := it.env.evalCond(iff.Cond)
+			cs := ConstSucc(it.b)
 			for si := 0; si < 2; si++ {
 				e := Edge{it.b, si}
-				if q.Gates.Edge[e] {
+				if q.Gates.Edge[e] || (cs >= 0 && si != cs) {
 					continue
 				}
 				want := si == 0
